@@ -149,7 +149,8 @@ def gen_case(seed, tier, prop):
             elif k == "tryfin":
                 st["eid"] += 1
                 out.append(["tryfin", body(depth + 1, groups, scopes, budget, tid),
-                            rng.choice(["shield_sleep", "reraise_cp", "raise", "shield_cp"] + (["group_raise"] * 2 if prop == "C04" else [])),
+                            rng.choice(["shield_sleep", "reraise_cp", "raise", "shield_cp"] + (["group_raise"] * 2 if prop == "C04" else [])
+                                       + (["started_twice"] * 2 if prop == "C07" else [])),
                             rng.choice(DUR[:4]), st["eid"]])
             elif k == "wait":
                 out.append(["wait", rng.randrange(nev)])
@@ -215,6 +216,7 @@ class SCRun:
         self.ts = {}                    # ctid -> task_status
         self.started_rec = {}           # ctid -> [values passed to started() that were accepted]
         self.start_info = {}            # ctid -> dict(caller, outcome, exc, begin, end)
+        self.started_refused = {}       # ctid -> [seq of started() calls that raised RuntimeError]
         self.gexit = {}                 # gid -> dict(seq, raised, body_exc, cancel_called)
         self.events = []
         self.lat = Counter()
@@ -479,6 +481,10 @@ class SCRun:
                 self.rec("raise", tid, eid=eid)
                 self.faults["raise_in_cleanup"] += 1
                 raise make_boom(eid)
+            elif kind == "started_twice":
+                # cleanup code that (re)announces readiness: harmless if the caller has been cancelled meanwhile
+                self.do_started(tid, eid * 100 + 71)
+                self.do_started(tid, eid * 100 + 72)
             elif kind == "group_raise":
                 # cleanup failed while being cancelled: report both, as an exception group
                 self.rec("raise", tid, eid=eid)
@@ -698,6 +704,7 @@ class SCRun:
             ts.started(val)
         except RuntimeError:
             self.rec("started_refused", tid)
+            self.started_refused.setdefault(tid, []).append(self.seq)
             if not self.started_rec.get(tid):
                 self.v("C07.started", f"child {tid}: first started() call raised RuntimeError")
             self.probes["second_started_refused"] += 1
@@ -943,6 +950,12 @@ class SCRun:
                                                      f"cancelled and the error surfaced nowhere")
                     elif surfaced[id(l)] > 1:
                         self.v("C02.duplicate", f"exception Boom#{l.eid} surfaced {surfaced[id(l)]} times at the root")
+        # C07: once the caller of start() has been cancelled, started() calls are ignored, never an error
+        for ctid, seqs in self.started_refused.items():
+            info = self.start_info.get(ctid)
+            if info is not None and info["outcome"] == "cancelled":
+                self.v("C07.started_after_cancel", f"child {ctid}: started() raised RuntimeError at seq {seqs[0]} although its "
+                                                   f"start() caller had been cancelled (the call must be ignored)")
         # C07: a failed/never-started child must not cancel the group on that account (checked when decidable)
         for ctid, info in self.start_info.items():
             if info["outcome"] in ("raised", "runtimeerror"):
